@@ -45,7 +45,7 @@ func init() {
 		add("Gets(full read buffer)‖Set", CacheCfg{MaxSize: 2}, two, [][]string{{"get 1", "get 1", "get 1", "get 1", "get 1"}, {"set 3"}}, "small", pbRest, 16, budget)
 		// systematic matrix: every kind of writer against every holder of the eviction lock, and writer pairs
 		writers := []string{"set 1", "set 3", "inv 1", "cw 1", "ci 2", "sia 3", "load 3 val"}
-		holders := []string{"invall", "coldest", "hottest", "getmax", "setmax 1", "setmax 9", "cleanup", "save"}
+		holders := []string{"invall", "coldest", "hottest", "coldest1", "hottest1", "getmax", "setmax 1", "setmax 9", "cleanup", "save"}
 		for _, w := range writers {
 			for _, h := range holders {
 				add("matrix:"+w+"‖"+h, CacheCfg{MaxSize: 2}, two, [][]string{{w}, {h}}, "native", pbRest, 4, budget)
